@@ -378,6 +378,15 @@ type evalCtx struct {
 	mdN []*mp4.MdatBox
 	mdL []*mp4.MdatBox
 	out bytes.Buffer
+	// slices returned by successful lazy ReadData calls, kept until the end: a later read must not change them
+	// (in-memory mode hands out stable sub-slices of the payload)
+	held []heldRead
+}
+
+type heldRead struct {
+	got  []byte
+	want []byte
+	desc string
 }
 
 func info(f *mp4.File) (string, error) {
@@ -600,6 +609,13 @@ func evalLazy(c *lazyCase, st *stats) *harness.Fail {
 		}
 	}
 
+	for _, h := range e.held {
+		st.queries++
+		if !bytes.Equal(h.got, h.want) {
+			return harness.Failf("C08|MdatBox.ReadData|lazy: a slice returned earlier was changed by later reads", "%s: now %s, was %s", h.desc, harness.HexTrunc(h.got, 24), harness.HexTrunc(h.want, 24))
+		}
+	}
+
 	// ---- the lazy mdat encodes as its header; header || copied payload is the box
 	for mi, md := range m.mdats {
 		var hdr bytes.Buffer
@@ -799,6 +815,9 @@ func (e *evalCtx) checkRange(mi int, off, size int64) *harness.Fail {
 		}
 		if fail := e.judge("MdatBox.ReadData", name, valid, off+size == P, want, got, int64(len(got)), err, desc); fail != nil {
 			return fail
+		}
+		if mode == 1 && valid && err == nil && len(e.held) < 64 {
+			e.held = append(e.held, heldRead{got, want, desc()})
 		}
 		e.out.Reset()
 		var n int64
